@@ -446,7 +446,7 @@ Section Wf.
         destruct (P inh e pos st) as [[p1 t1] st1|st1| |] eqn:Hp; try discriminate.
         destruct (post_ok_inv _ _ _ _ _ _ _ _ (HPn n inh e pos st gs (proj1 Hge) Hpre) Hp) as (Hle1 & Ht1 & Hpre1).
         pose proof (IHn _ _ _ _ _ _ _ _ Hge Hpre Hne Hp) as Hlt.
-        pose proof (arr_post E HE P (HPn _) inh e n0 p1 st1 [t1] gs (proj1 Hge) Hpre1
+        pose proof (arr_post E P C (HPn _) (HCn _) 0 inh e n0 p1 st1 [t1] gs (proj1 Hge) Hpre1
                       (Forall_cons _ Ht1 (Forall_nil _))) as Hr2.
         destruct (post_ok_inv _ _ _ _ _ _ _ _ Hr2 Hrun) as (Hle2 & _). lia.
       - (* TPair *)
@@ -459,8 +459,6 @@ Section Wf.
         apply andb_false_iff in Hnul. destruct Hnul as [Hnul|Hnul].
         + pose proof (IHn _ _ _ _ _ _ _ _ Hg1 Hpre Hnul Hp1). lia.
         + pose proof (IHn _ _ _ _ _ _ _ _ Hg2 Hpre1 Hnul Hp2). lia.
-      - (* TFail *)
-        discriminate.
       - (* TRule *)
         pose proof (good_rule _ _ Hg) as Hin.
         pose proof (rule_body_good r Hin) as Hgb.
